@@ -335,6 +335,7 @@ def chunks(tier, seed):
     out = [{"kind": "triples", "part": i, "of": 16} for i in range(16)]
     out += [{"kind": "logic3", "part": i, "of": 8} for i in range(8)]
     out += [{"kind": "spine3", "part": i, "of": 16} for i in range(16)]
+    out += [{"kind": "critpos", "part": i, "of": 4} for i in range(4)]
     if tier == "thorough":
         out += [{"kind": "core2", "part": i, "of": 64} for i in range(64)]
     return out
@@ -343,8 +344,33 @@ def chunks(tier, seed):
 _CACHE = {}
 
 
+def crit_pairs():
+    """criteria given to one clause by two successive calls (the clause is their conjunction)"""
+    c = [["cmp", ">", A_, ONE], ["logic", "OR", ["cmp", ">", A_, ONE], ["cmp", "<", B_, ONE]],
+         ["logic", "AND", ["cmp", ">", A_, ONE], ["cmp", "<", B_, ONE]], ["logic", "XOR", ["cmp", ">", A_, ONE], ["cmp", "<", B_, ONE]],
+         ["not", ["cmp", "=", A_, B_]], ["not", ["logic", "OR", ["cmp", ">", A_, ONE], ["cmp", "=", A_, B_]]],
+         ["in", A_, [ONE, NEG1], False], ["between", B_, NEG1, ONE], ["isnull", A_],
+         ["logic", "OR", ["logic", "AND", ["cmp", ">", A_, ONE], ["cmp", "<", B_, ONE]], ["cmp", "=", A_, B_]]]
+    out = []
+    for pos in CRITPOS:
+        for x in c:
+            out.append({"pos": pos, "cs": [x]})
+            for y in c:
+                out.append({"pos": pos, "cs": [x, y]})
+                if x is c[1] or y is c[1]:
+                    out.append({"pos": pos, "cs": [x, y, c[0]]})
+    return out
+
+
 def expand(chunk):
     k = chunk["kind"]
+    if k == "critpos":
+        if "cp" not in _CACHE:
+            _CACHE["cp"] = crit_pairs()
+        src = _CACHE["cp"]
+        for i in range(chunk["part"], len(src), chunk["of"]):
+            yield src[i]
+        return
     if k == "triples":
         if "t" not in _CACHE:
             _CACHE["t"] = list(triples())
@@ -534,7 +560,90 @@ def sig_for(e, d, fails=None):
     return m, trip
 
 
+def _fold(Q, cs, how):
+    from pypika_tortoise import Table
+    t = Table("ab")
+    if how == "where2":
+        q = Q.from_(t).select("a")
+        for c in cs:
+            q = q.where(T(c))
+        return q, " WHERE ", None
+    if how == "having2":
+        q = Q.from_(t).select("a").groupby("a")
+        for c in cs:
+            q = q.having(T(c))
+        return q, " HAVING ", None
+    if how == "filter2":
+        f = FN.Sum(Field("a"))
+        for c in cs:
+            f = f.filter(T(c))
+        return Q.from_(t).select(f), " FILTER(WHERE ", ") FROM "
+    if how == "delete_where2":
+        q = Q.from_(t).delete()
+        for c in cs:
+            q = q.where(T(c))
+        return q, " WHERE ", None
+    if how == "update_where2":
+        q = Q.update(t).set("a", 1)
+        for c in cs:
+            q = q.where(T(c))
+        return q, " WHERE ", None
+    if how == "case_when":
+        from pypika_tortoise.terms import Case
+        from pypika_tortoise.terms import Criterion
+        return Q.from_(t).select(Case().when(Criterion.all([T(c) for c in cs]), 1).else_(0)), "CASE WHEN ", " THEN 1 ELSE 0 END"
+    if how == "on_all":
+        from pypika_tortoise.terms import Criterion
+        u = Table("cd")
+        return Q.from_(t).join(u).on(Criterion.all([T(c) for c in cs])).select(u.star), " ON ", None
+    raise ValueError(how)
+
+
+CRITPOS = ["where2", "having2", "filter2", "delete_where2", "update_where2", "case_when", "on_all"]
+
+
+def run_critpos(case):
+    """criteria that reach one clause through several calls (where().where(), having().having(), filter().filter(),
+    Criterion.all): the clause must read as the conjunction of the criteria, each with its own grouping intact"""
+    res = Result()
+    cs, pos = case["cs"], case["pos"]
+    want_tree = cs[0]
+    for c in cs[1:]:
+        want_tree = ["logic", "AND", want_tree, c]
+    exp = norm(B(want_tree))
+    res.nontrivial = 1
+    res.states.append(h64(repr(case)))
+    for d in fp.CTX:
+        Q = fp.QCLS[d]
+        res.transitions += 1
+        try:
+            q, start, end = _fold(Q, cs, pos)
+            sql = q.get_sql(Q.SQL_CONTEXT) if hasattr(Q, "SQL_CONTEXT") else str(q)
+        except Exception as ex:
+            res.violate("C06|critpos|%s|raises" % pos, "building/rendering raised %s" % type(ex).__name__, case=case, dialect=d, error=str(ex)[:200])
+            continue
+        res.outcomes.append(h64(sql))
+        i = sql.find(start)
+        frag = sql[i + len(start):] if i >= 0 else ""
+        if end is not None:
+            j = frag.rfind(end)
+            frag = frag[:j] if j >= 0 else ""
+        lexd = "sqlite" if d == "generic" else d
+        try:
+            got = norm(parse_expr(frag, lexd))
+        except (ParseError, LexError) as ex:
+            res.violate("C06|critpos|%s|unparsable" % pos, "the clause does not parse as one criterion", case=case, dialect=d, sql=sql, fragment=frag,
+                        error=str(ex))
+            continue
+        if got != exp:
+            res.violate("C06|critpos|%s|regrouped" % pos, "the clause is not the conjunction of the criteria given by the calls (grouping lost)",
+                        case=case, dialect=d, sql=sql, parsed=got, built=exp)
+    return res
+
+
 def run_case(case):
+    if "pos" in case:
+        return run_critpos(case)
     res = Result()
     e = case["e"]
     try:
@@ -544,10 +653,12 @@ def run_case(case):
         return res
     res.nontrivial = 1
     res.states.append(h64(repr(e)))
+    fresh = {}
     for d in fp.CTX:
         res.transitions += 1
         r = check_tree(e, d)
         sql = term.get_sql(fp.CTX[d])
+        fresh[d] = sql
         res.outcomes.append(h64(sql))
         if r is not None and r[0] != "invalid":
             m, sgs = sig_for(e, d)
@@ -558,6 +669,24 @@ def run_case(case):
                 res.violate("C06|%s|%s" % (sg, dcls),
                             "rendered expression %s (dialect %s); minimal failing sub-tree %r" % (r[0], d, m),
                             tree=e, dialect=d, **r[1])
+    # render history: every sub-term rendered (and hashed) on its own first - at top level, where a criterion carries no
+    # parentheses - then the whole expression: the grouping must not depend on what was rendered before
+    term2 = T(e)
+    try:
+        for n in list(term2.nodes_()):
+            if hasattr(n, "get_sql") and n is not term2:
+                n.get_sql(fp.CTX["generic"])
+                str(n)
+                hash(n)
+    except Exception:
+        pass
+    for d in fp.CTX:
+        res.transitions += 1
+        sql2 = term2.get_sql(fp.CTX[d])
+        if sql2 != fresh[d]:
+            res.violate("C06|render-history|%s" % parentcat(e), "the expression renders differently after its sub-terms were rendered on their own",
+                        tree=e, dialect=d, fresh=fresh[d], after=sql2)
+            break
     # SQLite second opinion (values): rendered vs fully parenthesised reference on all assignments
     sql = term.get_sql(fp.CTX["sqlite"])
     ref = R(e)
